@@ -720,6 +720,14 @@ def make_page(context, root_box, page_type, resume_at, page_number,
             if refresh_missing_counters:
                 remake_state['content_lookups'].append(counter_lookup_id)
                 cached_lookups.append(counter_lookup_id)
+                # If the box moved to this page, the changes of the targets
+                # that precede it on this page have been reported to the page
+                # where the box was, this page has to be made again.
+                if counter_lookup.page_maker_index not in (
+                        None, page_number - 1):
+                    for anchor_name in counter_lookup.missing_target_counters:
+                        if anchor_name in remake_state['anchors']:
+                            remake_state['content_changed'] = True
                 counter_lookup.page_maker_index = page_number - 1
 
             # Step 1: page based back-references
